@@ -5,13 +5,13 @@ import time
 
 from common import WORK, Outcome, ToolError, known_keys, log, ordv, parse_trace_result, read_ndjson, run_tlc
 
-FAMILY = ("C22", "C23")
+FAMILY = ("C22", "C23", "C24")
 MODELS = {"quick": [("WalletModel.cfg", 900)],
           "thorough": [("WalletModel.cfg", 900), ("WalletModel_same.cfg", 900), ("WalletModel_wide.cfg", 3600), ("WalletModel_deep.cfg", 7000)]}
 
 
-def validate(prop_env, prop, trace, outcome, verdict=True):
-    res = run_tlc("WalletTrace.tla", "WalletTrace.cfg", env={"TRACE": trace, "PROP": prop_env}, timeout=3000)
+def validate(prop_env, prop, trace, outcome, verdict=True, spec="WalletTrace"):
+    res = run_tlc(spec + ".tla", spec + ".cfg", env={"TRACE": trace, "PROP": prop_env}, timeout=3000)
     if res["timeout"]:
         raise ToolError("WalletTrace timed out")
     matched, total, fails, known = parse_trace_result(res["out"])
@@ -22,7 +22,7 @@ def validate(prop_env, prop, trace, outcome, verdict=True):
     if not verdict:
         if matched != total:
             detail = res["out"][res["out"].find('"FAIL"'):][:600].replace("\n", " ")
-            outcome.notes.append("MODEL-DRIFT spec=WalletRunes event=%d %s" % (matched + 1, detail))
+            outcome.notes.append("MODEL-DRIFT spec=%s event=%d %s" % (spec, matched + 1, detail))
         return
     listed = known_keys(prop)
     for k in sorted(set(known)):
@@ -38,7 +38,42 @@ def validate(prop_env, prop, trace, outcome, verdict=True):
                            "reproduce": "ordv wallet-runes (tag %s)" % case.get("tag")})
 
 
+def run_offers(prop, tier, seed):
+    t0 = time.time()
+    outcome = Outcome(prop)
+    cfg = "OfferModel.cfg" if tier == "quick" else "OfferModel_3.cfg"
+    res = run_tlc("OfferModel.tla", cfg, workers=8, timeout=1800, deque=False)
+    if res["timeout"]:
+        raise ToolError("OfferModel timed out")
+    if not res["completed"]:
+        detail = res["out"][res["out"].find("Error:"):][:1500]
+        outcome.violation("OfferModel: " + detail.replace("\n", " ")[:700], {"property": prop, "kind": "offer-model", "tlc": detail})
+    worlds, cases = (1, 150) if tier == "quick" else (8, 600)
+    trace = os.path.join(WORK, "wallet-offers-%s-%d.ndjson" % (tier, seed))
+    ordv(["wallet-offers", "--seed", str(seed), "--worlds", str(worlds), "--cases", str(cases), "--out", trace], timeout=14000)
+    validate(prop, prop, trace, outcome, spec="OfferTrace")
+    validate("DRIFT", prop, trace, outcome, verdict=False, spec="OfferTrace")
+    lines = [x for x in read_ndjson(trace) if x["event"] == "Offer"]
+    classes = {}
+    distinct = set()
+    for x in lines:
+        k = "broadcast" if x["ok"] else " ".join(w for w in x["err"].split()[1:5] if len(w) < 20 and not w.startswith("`"))
+        classes[k] = classes.get(k, 0) + 1
+        distinct.add(json.dumps([x["ins"], x["claim"], x["changeEq"]], sort_keys=True))
+    cov = {"evaluations": len(lines), "distinct_nontrivial": len(distinct),
+           "rule": "PSBTs built by damaging a well-formed offer with up to 3 mutations (seller input replaced by any wallet output class: one "
+                   "inscription, two inscriptions, inscription+runes, runes only, cardinal; extra wallet or foreign inputs; signature flags "
+                   "none/standard/not-preserved on any input; named amount or price off by 1; another inscription named; input order changed) "
+                   "presented to the real `ord wallet offer accept` (subprocess, mock node, real explorer); contents of the spent outputs are "
+                   "read from the real index; distinct_nontrivial = distinct (inputs, named inscription, balance) shapes",
+           "samples": [lines[0], lines[len(lines) // 2]], "states": res.get("distinct", 0), "transitions": res.get("states", 0),
+           "traces_validated_against_impl": 1, "outcome_classes": classes}
+    return outcome, cov, time.time() - t0
+
+
 def run(prop, tier, seed):
+    if prop == "C24":
+        return run_offers(prop, tier, seed)
     t0 = time.time()
     outcome = Outcome(prop)
     states = distinct = 0
